@@ -957,6 +957,19 @@ example : Sel.run ⟨fun _ => 1, fun _ => none⟩ 8 (.alt [.abs 50 true, .rel (1
 -- Hare quota by name with the default quota fraction (the input the repaired defect 699592a crashed on)
 example : thresholdOpenList ⟨none, some Gen.Quota.hare, 1, false, false, false⟩ [(0,10),(1,20),(2,70)] 2 [0,1,2]
     = .ok [2, 0] := by decide +kernel
+-- the former witness of C16-openlist-decimal-context-rounding (repaired by c90882d): 5 % of 10^30 + 20 votes is
+-- 5·10^28 + 1; candidate 0 has exactly that, equality is not accepted, so it does not jump and the second seat goes
+-- to the list (candidate 2) — Decimal('0.05') used to round the product to 5.000…E+28 and seat candidate 0
+example : thresholdOpenList ⟨some (1/20), none, 1, false, false, false⟩
+    [(0, 50000000000000000000000000001), (1, 950000000000000000000000000019), (2, 0)] 2 [1, 2, 0]
+    = .ok [1, 2] := by decide +kernel
+example : jumpThreshold ⟨some (1/20), none, 1, false, false, false⟩
+    (sumVals [(0, 50000000000000000000000000001), (1, 950000000000000000000000000019), (2, 0)]) 2
+    = some 50000000000000000000000000001 := by decide +kernel
+-- ... and with equality accepted the candidate exactly on the threshold jumps
+example : thresholdOpenList ⟨some (1/20), none, 1, false, true, false⟩
+    [(0, 50000000000000000000000000001), (1, 950000000000000000000000000019), (2, 0)] 2 [1, 2, 0]
+    = .ok [1, 0] := by decide +kernel
 -- exactly on half a Hare quota (25 of 100, two seats), equality accepted / not accepted
 example : thresholdOpenList ⟨none, some Gen.Quota.hare, 1/2, false, true, false⟩ [(0,10),(1,25),(2,65)] 2 [0,1,2]
     = .ok [2, 1] := by decide +kernel
